@@ -809,3 +809,25 @@ Section Proof.
       E (frun law fp n t0) f = E (run law p n s0) f.
   Proof. intros H Hwf n s0 t0 Hag f Hf. eapply if_flatten_rel; eauto. Qed.
 End Proof.
+
+(* ---------- the hypothesis wf_block is necessary: a source variable named _old0 is captured ---------- *)
+Local Open Scope string_scope.
+Definition capture_block : block :=
+  BCons (SIf (BrCons (CAtom (EVar "x") Ceq (EConst (mkq 0 1)))
+                (BCons (SAssign "x" (RDet (EConst (mkq 1 1)))) (BCons (SAssign "y" (RDet (EVar "_old0"))) BNil)) BrNil) BNil) BNil.
+Definition capture_state : state := fun v => if var_eqb v "_old0" then mkq 7 1 else 0.
+
+Theorem if_flatten_without_wf_refuted :
+  exists (k : nat) (b : block) (l : list gassign) (k' : nat) (s : state) (f : state -> Qc),
+    if_flatten k b = Some (l, k') /\ blind f /\ agree s s /\
+    E (exec_gas no_law l s) f <> E (exec_block no_law b s) f.
+Proof.
+  exists 0%nat, capture_block.
+  destruct (if_flatten 0 capture_block) as [[l k']|] eqn:Efl; [|vm_compute in Efl; discriminate].
+  exists l, k', capture_state, (fun s => s "y").
+  split; [reflexivity|]. split; [intros s t H; apply H; reflexivity|]. split; [intros x _; reflexivity|].
+  vm_compute in Efl. inversion Efl; subst l k'. clear Efl.
+  intros Heq.
+  match type of Heq with ?a = ?b => assert (Hc : Qc_eqb a b = true) by (rewrite Heq; apply Qc_eqb_refl) end.
+  vm_compute in Hc. discriminate.
+Qed.
